@@ -919,9 +919,11 @@ func (w *c05World) classify(op *c05Op, a, b c05Res, pre1 string, kind string, ki
 		}
 	}
 	switch {
-	case kind == "category" && b.cat == "perm" && a.cat == "other":
+	// (a path that the server's working-directory join cleans lexically - "", "x/.", "x/", "x/../y" - is the known finding
+	// F24 whatever the operation; only paths that are not sensitive to that cleaning can show the two repaired defects below)
+	case kind == "category" && b.cat == "perm" && a.cat == "other" && sens == "":
 		return "perm-category"
-	case op.name == "statvfs" && w.wd:
+	case op.name == "statvfs" && w.wd && sens == "":
 		return "statvfs-workdir"
 	case op.name == "removeall" && pre1 == "symlink":
 		return "removeall-symlink"
